@@ -136,6 +136,46 @@ def collisions_case(chk):
             chk.violation('collision:module-common:alias', f'two modules imported under the same local name: {names}')
 
 
+def collisions_proto_plus_deps(chk):
+    """same collision, but the dependency is itself a proto-plus library (option proto-plus-deps): both `common` modules
+    must be imported under distinct package-derived aliases and the library must import and work."""
+    dep_api = dict(files=[dict(name='acme/basics/v1/common.proto', package='acme.basics.v1',
+                               messages=[dict(name='Label', fields=[dict(name='text')]), dict(name='Ping', fields=[dict(name='x')])],
+                               services=[dict(name='Basics', methods=[dict(name='DoPing', **{'in': 'Ping', 'out': 'Ping'},
+                                                                            http=[dict(verb='post', uri='/v1/ping', body='*')])])])])
+    dep_file = dict(dep_api['files'][0], target=False, imports=[])
+    dep_file = {k: v for k, v in dep_file.items() if k != 'services'}
+    own = dict(name='acme/nm/v1/common.proto', package=PKG, messages=[dict(name='Local', fields=[dict(name='y')])])
+    main_ = dict(name='acme/nm/v1/svc.proto', package=PKG,
+                 messages=[dict(name='Req', fields=[dict(name='a', type='.acme.basics.v1.Label'), dict(name='b', type='Local')]),
+                           dict(name='Out', fields=[dict(name='name'), dict(name='s', type='.acme.basics.v1.Label'), dict(name='l', type='Local')])],
+                 services=[dict(name='Nm', methods=[dict(name='Mix', **{'in': 'Req', 'out': 'Out'}, http=[dict(verb='post', uri='/v1/mix', body='*')])])])
+    api = dict(files=[dep_file, own, main_])
+    chk.case('collision:proto-plus-deps', nontrivial=True)
+    with gen.scratch() as work:
+        try:
+            _, dres = gen.generate_api(dep_api, dict(transport=['grpc'], snippets=False), work)
+            req, res = gen.generate_api(api, dict(transport=['grpc', 'rest'], snippets=False, proto_plus_deps='acme.basics.v1'), work)
+        except Exception as e:
+            chk.violation('collision:proto-plus-deps:generation', f'{type(e).__name__}: {e}'[:300]); return
+        root = gen.materialise(res, os.path.join(work, 'out'))
+        gen.materialise(dres, os.path.join(work, 'depout'))
+        # both emitted trees share the `acme` namespace: merge the dependency tree into the main one
+        import shutil
+        shutil.copytree(os.path.join(work, 'depout', 'acme', 'basics_v1'), os.path.join(root, 'acme', 'basics_v1'))
+        imp = pipeline.import_probe(root, MODULE)
+        if not imp['ok']:
+            chk.violation('collision:proto-plus-deps:import', f"{imp['errors'][:2]}")
+            return
+        code = ("import sys; sys.path.insert(0, %r)\nfrom acme import nm_v1\nfrom acme.basics_v1.types import common as dep_common\n"
+                "r = nm_v1.Req(a=dep_common.Label(text='t'), b=nm_v1.Local(y='z'))\n"
+                "b = nm_v1.Req.serialize(r); r2 = nm_v1.Req.deserialize(b); assert r2.a.text == 't' and r2.b.y == 'z', r2\nprint('ok')" % root)
+        import subprocess
+        p = subprocess.run([gen.PY, '-W', 'ignore', '-c', code], capture_output=True, text=True, cwd=root)
+        if p.returncode != 0:
+            chk.violation('collision:proto-plus-deps:use', p.stderr.strip().splitlines()[-1][:300] if p.stderr.strip() else 'failed')
+
+
 def main(chk, args):
     quick = chk.tier == 'quick'
     reserved, keywords = word_lists()
@@ -198,6 +238,7 @@ def main(chk, args):
     for idx, t, info in rejected:
         chk.violation('trace:' + traces[idx][0], f'NamesTrace rejected the observation {t}: {info}')
     collisions_case(chk)
+    collisions_proto_plus_deps(chk)
     chk.rule = ('cases = every (word, position) of Names.tla: words = RESERVED_NAMES U keyword.kwlist (read from /repo), positions = top-level '
                 'field, nested field, flattened parameter, http path variable (top-level, dotted), http body, routing field, rpc name, proto '
                 'file name (+ control parameters) - enumerated exhaustively; plus a module-name collision across packages')
